@@ -68,6 +68,11 @@ CLAIMED = {
    note="Constants resolved through go/types; E3 assumptions as for C08; intra-procedural dependence for the hit test.",
    technique="static analysis: constant agreement (writer/reader), switch exhaustiveness over stored constants, interval/guard rules, dependence slices, loop-carried value query over SSA",
    ref="DESIGN.md §3 C14"),
+ "C15": dict(
+   text="Static analysis of structural necessary conditions of the representation-metadata cache: persisted-or-rederived — every RepData/Segment field read by request-serving code is either persisted by encoding/json (exported, tag not '-') or stored by the re-derivation step that the cache-load path calls after decoding; publication after validation — a representation is entered into the served table only after the loader's error test, the zero-segment test and the audio sample-duration test, the MPD last (no error exit reachable afterwards), and failed consolidation deletes the asset; admission — the integrality test and the equal-duration test end in an error and the latter is reached by clear representations of the reference content type; the gzip metadata stream is read to EOF with io.ReadAll before decoding and every error of the read/decode chain is returned. Byte equality scan vs cache, idempotent writing and contiguity are not decided.",
+   note="'Re-derived' is path-insensitive (a store in the re-derivation step or its callees); encoding/json semantics assumed; serving phase from the VTA call graph.",
+   technique="static analysis: struct-tag/field read-write query over SSA (persisted-or-rederived), dominance and reachability rules on registration stores, path-condition sets, errors-returned path rule",
+   ref="DESIGN.md §2 E6, §3 C15"),
  "C18": dict(
    text="Static analysis (SSA control-flow walk + range/guard analysis) of two structural necessary conditions: every callback/read error is returned on all non-nil paths, and the box-walk cursor provably advances and cannot wrap. Decides those clauses for every input and read schedule; does not decide output equality.",
    note="Trusts go/types, go/ssa; VTA call graph for reachability; integer overflow only modelled where a rule says so.",
